@@ -60,6 +60,9 @@ func (s ASGAPI) DescribeAutoScalingGroups(in *autoscaling.DescribeAutoScalingGro
 	}
 	out := &autoscaling.DescribeAutoScalingGroupsOutput{}
 	for _, n := range names {
+		if w.DescribeOmit != nil && w.DescribeOmit(n) {
+			continue // a successful answer that leaves a requested group out (partial answer)
+		}
 		if a := w.FindASG(n); a != nil {
 			out.AutoScalingGroups = append(out.AutoScalingGroups, w.describe(a))
 		}
